@@ -49,6 +49,15 @@ const sigFinding5 = "asduration-mixed-sign-overflow"
 
 var finding5Reported int
 
+var durClassKey, tsClassKey [100]string
+
+func init() {
+	for i := range durClassKey {
+		durClassKey[i] = fmt.Sprintf("dur-class-%d", i)
+		tsClassKey[i] = fmt.Sprintf("ts-class-%d", i)
+	}
+}
+
 // replayable input
 type input struct {
 	K    string `json:"k"`             // pair | dur | time | unix | nil
@@ -240,8 +249,8 @@ func checkPair(c *C, s int64, n int32) {
 	}
 
 	c.Case("p"+in.S+","+in.N, s != 0 || n != 0)
-	c.Hist(fmt.Sprintf("dur-class-%d", dClass))
-	c.Hist(fmt.Sprintf("ts-class-%d", tClass))
+	c.Hist(durClassKey[dClass%100])
+	c.Hist(tsClassKey[tClass%100])
 	switch {
 	case !prod.IsInt64():
 		c.Hist("asduration:mul-overflow")
@@ -532,7 +541,7 @@ func runC43(c *C) {
 	for _, d := range durationBoundaries() {
 		checkDur(c, d)
 	}
-	for i, n := 0, c.N(100000, 3000000); i < n && !c.Failed(); i++ {
+	for i, n := 0, c.N(100000, 2000000); i < n && !c.Failed(); i++ {
 		checkDur(c, randDuration(c))
 	}
 
@@ -560,7 +569,7 @@ func runC43(c *C) {
 		t := now.Add(dd)
 		checkTime(c, t, input{K: "time", S: i64s(t.Unix()), N: i64s(int64(t.Nanosecond())), Zone: 1 << 30, Mono: true})
 	}
-	for i, n := 0, c.N(50000, 2000000); i < n && !c.Failed(); i++ {
+	for i, n := 0, c.N(50000, 1000000); i < n && !c.Failed(); i++ {
 		in := input{K: "time", S: i64s(randSeconds(c, sb)), N: i64s(int64(c.Rand.Intn(1e9))), Zone: zones[c.Rand.Intn(len(zones))]}
 		checkTime(c, timeOf(in), in)
 	}
@@ -577,7 +586,7 @@ func runC43(c *C) {
 			checkUnix(c, s, ns)
 		}
 	}
-	for i, n := 0, c.N(50000, 2000000); i < n && !c.Failed(); i++ {
+	for i, n := 0, c.N(50000, 1000000); i < n && !c.Failed(); i++ {
 		var ns int64
 		switch c.Rand.Intn(3) {
 		case 0:
